@@ -22,6 +22,7 @@ from . import mir
 from .mir import expr_str, strip_generics, callee_name, op_place
 
 MAX_PATHS = 4000
+MAX_STEPS = 60000      # blocks walked in one run: a case that is not pinned down by its inputs fans out and is given up
 
 
 _PRIM = {"u8": (1, False), "i8": (1, True), "u16": (2, False), "i16": (2, True), "u32": (4, False), "i32": (4, True), "u64": (8, False), "i64": (8, True),
@@ -133,6 +134,7 @@ class Cases:
         self.sym = mir.Sym(body, ix)
         self.paths = []
         self.overflow = False
+        self.steps = 0
         self.depth = 0
 
     # ------------------------------------------------------------------------------ evaluation
@@ -220,6 +222,8 @@ class Cases:
             e = ("subslice", e, el["sub"], el["to"])
         if as_place:
             return e  # naming a place to store into: neither the case's inputs nor remembered stores apply
+        if e[0] in ("agg", "const", "call", "bin", "un", "cast", "closure", "fn", "iterval"):
+            return e  # a value, not a place: nothing was stored "there" and no input is named like it
         t = expr_str(e)
         if t in st["mem"]:
             return st["mem"][t]   # what this walk stored there last
@@ -473,11 +477,15 @@ class Cases:
         stack = [(0, st0, Path(), {})]
         while stack:
             bi, st, path, visits = stack.pop()
-            if len(self.paths) > MAX_PATHS:
+            if len(self.paths) > MAX_PATHS or self.steps > MAX_STEPS:
                 self.overflow = True
                 break
             while True:
                 if bi < 0:
+                    break
+                self.steps += 1
+                if self.steps > MAX_STEPS:
+                    self.overflow = True
                     break
                 n = visits.get(bi, 0)
                 if n >= 2:
